@@ -1007,3 +1007,633 @@ Proof.
 Qed.
 
 End StepProps.
+
+(* ------------------------------------------------------------------ *)
+(** Part 5: what one step does to incarnations ("step facts"). *)
+
+Definition live_inc (m : mgr) (i : N) : Prop :=
+  exists id f, sget (m_flows m) id = Some f /\ f_inc f = i.
+
+Definition is_close (i : N) (x : lout) : bool :=
+  match x with
+  | (Some j, CloseFlow _) => N.eqb j i
+  | _ => false
+  end.
+Definition closes (i : N) (o : list lout) : nat := length (filter (is_close i) o).
+
+Lemma closes_app i a b : closes i (a ++ b) = closes i a + closes i b.
+Proof. unfold closes. rewrite filter_app, app_length. reflexivity. Qed.
+
+Lemma closes_zero i o : (forall x, In x o -> is_close i x = false) -> closes i o = 0.
+Proof.
+  intros H. unfold closes. induction o as [|x o IH]; cbn; auto.
+  rewrite (H x (or_introl eq_refl)). apply IH. intros y Hy. apply H. right. exact Hy.
+Qed.
+
+Lemma closes_arms i o : arms o -> closes i o = 0.
+Proof. intros H. apply closes_zero. intros x Hx. destruct (arms_in _ _ H Hx) as (d & ->). reflexivity. Qed.
+
+Lemma closes_pre i inp id f f' pre : pre_ok inp id f f' pre -> closes i pre = 0.
+Proof.
+  intros H. apply closes_zero. intros x Hx. destruct (pre_ok_in _ _ _ _ _ _ H Hx) as (_ & H2).
+  destruct x as [l o]. cbn in H2. destruct l; destruct o; auto; destruct H2.
+Qed.
+
+Lemma closes_evict i id f : closes i (evict_close id f) = if N.eqb (f_inc f) i then 1 else 0.
+Proof. unfold closes, evict_close. cbn. destruct (N.eqb (f_inc f) i); reflexivity. Qed.
+
+Lemma live_inc_dec m i : live_inc m i \/ ~ live_inc m i.
+Proof.
+  destruct (Exists_dec (fun kf : nat * flow => f_inc (snd kf) = i) (sitems (m_flows m))) as [H|H].
+  - intros kf. apply N.eq_dec.
+  - left. apply Exists_exists in H. destruct H as ((id, f) & Hin & He).
+    exists id, f. split; [apply sitems_spec; exact Hin | exact He].
+  - right. intros (id & f & Hg & He). apply H. apply Exists_exists.
+    exists (id, f). split; [apply sitems_spec; exact Hg | exact He].
+Qed.
+
+Record SF (m m' : mgr) (inp : input) (o : list lout) : Prop := {
+  sf_ninc : (m_ninc m <= m_ninc m')%N;
+  sf_lbl : forall i x, In (Some i, x) o ->
+             (i < m_ninc m')%N /\ (live_inc m i \/ (i = m_ninc m /\ m_ninc m' = (m_ninc m + 1)%N));
+  sf_flows : forall id f', sget (m_flows m') id = Some f' ->
+      (exists f, sget (m_flows m) id = Some f /\ same_id f f' /\
+                 (forall b, f_backend_addr f = Some b -> f_backend_addr f' = Some b)) \/
+      (f_inc f' = m_ninc m /\ m_ninc m' = (m_ninc m + 1)%N /\ f_backend_addr f' = None /\
+       exists p, inp = IClient (f_client f') p /\ In (Some (m_ninc m), Metric MCreated) o);
+  sf_tob : forall i d p, In (Some i, SendToBackend d p) o ->
+      exists id f, sget (m_flows m) id = Some f /\ f_inc f = i /\
+        (f_backend_addr f = Some d \/ f_backend_addr f = None) /\
+        (forall id' f', sget (m_flows m') id' = Some f' -> f_inc f' = i -> f_backend_addr f' = Some d) /\
+        (forall d' p', In (Some i, SendToBackend d' p') o -> d' = d);
+  sf_close0 : forall i, live_inc m' i -> closes i o = 0;
+  sf_close1 : forall i, live_inc m i -> ~ live_inc m' i -> closes i o = 1;
+  sf_close_dead : forall i, ~ live_inc m i -> closes i o = 0;
+  sf_created : forall i, In (Some i, Metric MCreated) o ->
+      i = m_ninc m /\ exists src p, inp = IClient src p /\
+        (forall id f, sget (m_flows m') id = Some f -> f_inc f = i -> f_client f = src);
+  sf_newinc : m_ninc m' <> m_ninc m -> m_ninc m' = (m_ninc m + 1)%N /\ live_inc m' (m_ninc m);
+  sf_toc : forall i d p, In (Some i, SendToClient d p) o ->
+      exists id f, inp = IBackend id p /\ sget (m_flows m) id = Some f /\ f_inc f = i /\ f_client f = d;
+  sf_open : forall i id a, In (Some i, OpenUpstream id a) o ->
+      exists f bid, inp = IResolved id bid a /\ sget (m_flows m) id = Some f /\ f_inc f = i /\
+        f_backend_addr f = None /\
+        (forall j g, sget (m_flows m') j = Some g -> f_inc g = i -> f_backend_addr g = Some a) /\
+        (forall d p, In (Some i, SendToBackend d p) o -> d = a);
+}.
+
+Lemma live_inc_updated m id f f' i :
+  sget (m_flows m) id = Some f -> f_inc f' = f_inc f -> (live_inc (updated m id f') i <-> live_inc m i).
+Proof.
+  intros Hg Hinc. unfold live_inc, updated. cbn. split.
+  - intros (j & g & Hj & He). rewrite sget_sset in Hj. destruct (Nat.eqb j id) eqn:E.
+    + apply Nat.eqb_eq in E. subst j. rewrite Hg in Hj. inv Hj. exists id, f. split; congruence.
+    + exists j, g. auto.
+  - intros (j & g & Hj & He). destruct (Nat.eqb j id) eqn:E.
+    + apply Nat.eqb_eq in E. subst j. exists id, f'. rewrite sget_sset, Nat.eqb_refl, Hg.
+      split; [reflexivity|]. congruence.
+    + exists j, g. rewrite sget_sset, E. auto.
+Qed.
+
+Lemma live_inc_removed m id f i :
+  Inv m -> sget (m_flows m) id = Some f ->
+  (live_inc (removed m id f) i <-> live_inc m i /\ i <> f_inc f).
+Proof.
+  intros HI Hg. unfold live_inc, removed. cbn. split.
+  - intros (j & g & Hj & He). rewrite sget_sremove in Hj. destruct (Nat.eqb j id) eqn:E; [discriminate|].
+    split; [exists j, g; auto|]. intros Hc. subst i.
+    pose proof (inv_inc_inj _ HI _ _ _ _ Hj Hg Hc). subst j. rewrite Nat.eqb_refl in E. discriminate.
+  - intros ((j & g & Hj & He) & Hne). exists j, g. split; [|exact He].
+    rewrite sget_sremove. destruct (Nat.eqb j id) eqn:E; [|exact Hj].
+    apply Nat.eqb_eq in E. subst j. congruence.
+Qed.
+
+Lemma rems_closes m m' o : rems m m' o -> Inv m ->
+  forall i, (live_inc m' i -> closes i o = 0) /\
+            (live_inc m i -> ~ live_inc m' i -> closes i o = 1) /\
+            (~ live_inc m i -> closes i o = 0).
+Proof.
+  induction 1 as [m|m m' a o Ha H IH|m id f m' o Hg H IH]; intros HI i.
+  - repeat split; auto. intros H1 H2. contradiction.
+  - rewrite closes_app, (closes_arms _ _ Ha). cbn. apply IH. exact HI.
+  - rewrite closes_app, closes_evict.
+    specialize (IH (Inv_removed _ _ _ HI Hg) i). destruct IH as (I0 & I1 & Id).
+    pose proof (live_inc_removed m id f i HI Hg) as Hl.
+    assert (forall j, live_inc m' j -> live_inc (removed m id f) j) as Hmono.
+    { intros j (k & g & Hk & He). exists k, g. split; [eapply rems_mono; eauto | exact He]. }
+    split; [|split].
+    + intros H1. pose proof (Hmono _ H1) as H2. apply Hl in H2. destruct H2 as (_ & Hne).
+      destruct (N.eqb_spec (f_inc f) i); [congruence|]. rewrite (I0 H1). reflexivity.
+    + intros H1 H2. destruct (N.eqb_spec (f_inc f) i) as [E|E].
+      * rewrite Id; [reflexivity|]. rewrite Hl. intros (_ & Hne). congruence.
+      * rewrite I1; [reflexivity| |exact H2]. apply Hl. split; [exact H1|congruence].
+    + intros H1. destruct (N.eqb_spec (f_inc f) i) as [E|E].
+      * exfalso. apply H1. exists id, f. auto.
+      * rewrite Id; [reflexivity|]. rewrite Hl. tauto.
+Qed.
+
+Lemma in_pre_tob inp id f f' pre i d p :
+  pre_ok inp id f f' pre -> In (Some i, SendToBackend d p) pre ->
+  i = f_inc f /\ f_backend_addr f' = Some d /\ (f_backend_addr f = Some d \/ f_backend_addr f = None) /\
+  (forall i' d' p', In (Some i', SendToBackend d' p') pre -> d' = d).
+Proof.
+  intros H Hin. destruct H; cbn in Hin.
+  - destruct Hin.
+  - destruct Hin as [Hin|[Hin|[]]]; [discriminate|]. inv Hin. repeat split; auto.
+    intros i' d' p' H'. cbn in H'.
+    destruct H' as [H'|[H'|[]]]; [discriminate|inv H'; reflexivity].
+  - destruct Hin as [Hin|[Hin|[Hin|[]]]]; [discriminate|discriminate|]. inv Hin. repeat split; auto.
+    intros i' d' p' H'. cbn in H'.
+    destruct H' as [H'|[H'|[H'|[]]]]; try discriminate. inv H'. reflexivity.
+  - destruct Hin as [Hin|[]]; discriminate.
+  - destruct Hin as [Hin|[Hin|[]]]; discriminate.
+Qed.
+
+Lemma in_pre_toc inp id f f' pre i d p :
+  pre_ok inp id f f' pre -> In (Some i, SendToClient d p) pre ->
+  i = f_inc f /\ inp = IBackend id p /\ d = f_client f.
+Proof.
+  intros H Hin. destruct H; cbn in Hin.
+  - destruct Hin.
+  - destruct Hin as [Hin|[Hin|[]]]; discriminate.
+  - destruct Hin as [Hin|[Hin|[Hin|[]]]]; discriminate.
+  - destruct Hin as [Hin|[]]; discriminate.
+  - destruct Hin as [Hin|[Hin|[]]]; [discriminate|]. inv Hin. auto.
+Qed.
+
+Lemma in_pre_open inp id f f' pre i id' a :
+  pre_ok inp id f f' pre -> In (Some i, OpenUpstream id' a) pre ->
+  i = f_inc f /\ id' = id /\ (exists bid, inp = IResolved id bid a) /\ f_backend_addr f = None /\
+  f_backend_addr f' = Some a /\ (forall i' d p, In (Some i', SendToBackend d p) pre -> d = a).
+Proof.
+  intros H Hin. destruct H; cbn in Hin.
+  - destruct Hin.
+  - destruct Hin as [Hin|[Hin|[]]]; discriminate.
+  - destruct Hin as [Hin|[Hin|[Hin|[]]]]; [|discriminate|discriminate]. inv Hin.
+    repeat split; eauto. intros i' d q H'. cbn in H'.
+    destruct H' as [H'|[H'|[H'|[]]]]; try discriminate. inv H'. reflexivity.
+  - destruct Hin as [Hin|[]]. inv Hin. repeat split; eauto.
+    intros i' d q H'. cbn in H'. destruct H' as [H'|[]]. discriminate.
+  - destruct Hin as [Hin|[Hin|[]]]; discriminate.
+Qed.
+
+Lemma in_pre_lbl inp id f f' pre i x : pre_ok inp id f f' pre -> In (Some i, x) pre -> i = f_inc f.
+Proof. intros H Hin. destruct (pre_ok_in _ _ _ _ _ _ H Hin) as (E & _). cbn in E. congruence. Qed.
+
+Lemma shape_SF hash m now inp m' o : Inv m -> shape hash m now inp m' o -> SF m m' inp o.
+Proof.
+  intros HI H. pose proof (shape_inv _ _ _ _ _ _ HI H) as HI'.
+  destruct H as [o Ho|m' E1 E2 E3 E4 H5 H6|id f f' pre o Hg Hs Hp Ht Hpre Ho Hmono
+                |id f f' pre o Hg Hs Hpre Ho|m' o Hr|src p o m' cl Ei Ht Hd Hc Ho Em Ecl Hne Hpne].
+  - (* unchanged *)
+    rewrite Forall_forall in Ho.
+    assert (forall i x, ~ In (Some i, x) o) as Hno by (intros i x Hin; specialize (Ho _ Hin); discriminate).
+    assert (forall i, closes i o = 0) as Hc0.
+    { intros i. apply closes_zero. intros [l x] Hx. specialize (Ho _ Hx). cbn in Ho. subst l. reflexivity. }
+    constructor; auto; try (intros; exfalso; eapply Hno; eauto; fail).
+    + lia.
+    + intros id f' Hg. left. exists f'. split; [exact Hg|]. split; [apply same_id_refl|auto].
+    + intros i H1 H2. contradiction.
+    + intros Hc. congruence.
+  - (* config *)
+    constructor; try (intros; cbn in *; contradiction); try (intros; reflexivity).
+    + lia.
+    + intros id f'. rewrite E1. intros Hg. left. exists f'. split; [exact Hg|]. split; [apply same_id_refl|auto].
+    + intros i H1 H2. exfalso. apply H2. unfold live_inc in *. rewrite E1. exact H1.
+  - (* in-place update *)
+    pose proof Hs as (Hcl & Hcfg & Hinc).
+    assert (forall i, closes i (pre ++ o) = 0) as Hc0.
+    { intros i. rewrite closes_app, (closes_pre _ _ _ _ _ _ Hpre), (closes_arms _ _ Ho). reflexivity. }
+    assert (forall i x, In (Some i, x) (pre ++ o) -> In (Some i, x) pre /\ i = f_inc f) as Hin_pre.
+    { intros i x Hin. apply in_app_or in Hin. destruct Hin as [Hin|Hin].
+      - split; [exact Hin | eapply in_pre_lbl; eauto].
+      - destruct (arms_in _ _ Ho Hin). discriminate. }
+    constructor; auto.
+    + cbn. lia.
+    + intros i x Hin. destruct (Hin_pre _ _ Hin) as (_ & ->). cbn.
+      split; [apply (inv_inc _ HI _ _ Hg)|]. left. exists id, f. auto.
+    + intros j g. unfold updated. cbn. rewrite sget_sset. destruct (Nat.eqb j id) eqn:E.
+      * apply Nat.eqb_eq in E. subst j. rewrite Hg. intros H. inv H. left. exists f. auto.
+      * intros Hj. left. exists g. split; [exact Hj|]. split; [apply same_id_refl|auto].
+    + intros i d p Hin. destruct (Hin_pre _ _ Hin) as (Hin' & ->).
+      destruct (in_pre_tob _ _ _ _ _ _ _ _ Hpre Hin') as (_ & Hb' & Hb & Huniq).
+      exists id, f. split; [exact Hg|]. split; [reflexivity|]. split; [exact Hb|]. split.
+      * intros j g. unfold updated. cbn. rewrite sget_sset. destruct (Nat.eqb j id) eqn:E.
+        -- rewrite Hg. intros H _. inv H. exact Hb'.
+        -- intros Hj He. pose proof (inv_inc_inj _ HI _ _ _ _ Hj Hg He). subst j.
+           rewrite Nat.eqb_refl in E. discriminate.
+      * intros d' p' Hin2. destruct (Hin_pre _ _ Hin2) as (Hin2' & _). eapply Huniq; eauto.
+    + intros i H1 H2. exfalso. apply H2. apply (live_inc_updated m id f f' i Hg Hinc). exact H1.
+    + intros i Hin. destruct (Hin_pre _ _ Hin) as (Hin' & _).
+      destruct (pre_ok_in _ _ _ _ _ _ Hpre Hin') as (_ & Hx). destruct Hx.
+    + cbn. intros Hc. congruence.
+    + intros i d p Hin. destruct (Hin_pre _ _ Hin) as (Hin' & ->).
+      destruct (in_pre_toc _ _ _ _ _ _ _ _ Hpre Hin') as (_ & Hi & Hd').
+      exists id, f. auto.
+    + intros i id' a Hin. destruct (Hin_pre _ _ Hin) as (Hin' & ->).
+      destruct (in_pre_open _ _ _ _ _ _ _ _ Hpre Hin') as (_ & -> & (bid & Hi) & Hb0 & Hb' & Hu).
+      exists f, bid. repeat split; auto.
+      * intros j g. unfold updated. cbn. rewrite sget_sset. destruct (Nat.eqb j id) eqn:E.
+        -- rewrite Hg. intros H _. inv H. exact Hb'.
+        -- intros Hj He. pose proof (inv_inc_inj _ HI _ _ _ _ Hj Hg He). subst j.
+           rewrite Nat.eqb_refl in E. discriminate.
+      * intros d q Hin2. destruct (Hin_pre _ _ Hin2) as (Hin2' & _). eapply Hu; eauto.
+  - (* teardown of one flow *)
+    pose proof Hs as (Hcl & Hcfg & Hinc).
+    assert (forall i, closes i (pre ++ evict_close id f ++ o) = if N.eqb (f_inc f) i then 1 else 0) as Hcl0.
+    { intros i. rewrite !closes_app, (closes_pre _ _ _ _ _ _ Hpre), (closes_arms _ _ Ho), closes_evict. lia. }
+    assert (forall i x, In (Some i, x) (pre ++ evict_close id f ++ o) -> i = f_inc f) as Hlbl.
+    { intros i x Hin. apply in_app_or in Hin. destruct Hin as [Hin|Hin]; [eapply in_pre_lbl; eauto|].
+      apply in_app_or in Hin. destruct Hin as [Hin|Hin].
+      - cbn in Hin. destruct Hin as [H|[H|[]]]; inv H; reflexivity.
+      - destruct (arms_in _ _ Ho Hin). discriminate. }
+    assert (forall i x, In (Some i, x) (pre ++ evict_close id f ++ o) ->
+                        match x with SendToBackend _ _ | SendToClient _ _ | Metric MCreated | OpenUpstream _ _ => True | _ => False end ->
+                        In (Some i, x) pre) as Hin_pre.
+    { intros i x Hin Hx. apply in_app_or in Hin. destruct Hin as [Hin|Hin]; [exact Hin|].
+      apply in_app_or in Hin. destruct Hin as [Hin|Hin].
+      - cbn in Hin. destruct Hin as [H|[H|[]]]; inv H; destruct Hx.
+      - destruct (arms_in _ _ Ho Hin) as (d & E). inv E. }
+    pose proof (live_inc_removed m id f) as Hl.
+    constructor; auto.
+    + cbn. lia.
+    + intros i x Hin. rewrite (Hlbl _ _ Hin). cbn.
+      split; [apply (inv_inc _ HI _ _ Hg)|]. left. exists id, f. auto.
+    + intros j g. unfold removed. cbn. rewrite sget_sremove. destruct (Nat.eqb j id); [discriminate|].
+      intros Hj. left. exists g. split; [exact Hj|]. split; [apply same_id_refl|auto].
+    + intros i d p Hin. pose proof (Hlbl _ _ Hin) as ->. pose proof (Hin_pre _ _ Hin I) as Hin'.
+      destruct (in_pre_tob _ _ _ _ _ _ _ _ Hpre Hin') as (_ & Hb' & Hb & Huniq).
+      exists id, f. split; [exact Hg|]. split; [reflexivity|]. split; [exact Hb|]. split.
+      * intros j g Hj He. exfalso. assert (live_inc (removed m id f) (f_inc f)) as Hli by (exists j, g; auto).
+        apply (Hl _ HI Hg) in Hli. destruct Hli as (_ & Hne). congruence.
+      * intros d' p' Hin2. pose proof (Hin_pre _ _ Hin2 I) as Hin2'. eapply Huniq; eauto.
+    + intros i Hli. apply (Hl _ HI Hg) in Hli. destruct Hli as (_ & Hne). rewrite Hcl0.
+      destruct (N.eqb_spec (f_inc f) i); congruence.
+    + intros i H1 H2. rewrite Hcl0. destruct (N.eqb_spec (f_inc f) i) as [E|E]; [reflexivity|].
+      exfalso. apply H2. apply (Hl _ HI Hg). split; [exact H1|congruence].
+    + intros i H1. rewrite Hcl0. destruct (N.eqb_spec (f_inc f) i) as [E|E]; [|reflexivity].
+      exfalso. apply H1. exists id, f. auto.
+    + intros i Hin. pose proof (Hin_pre _ _ Hin I) as Hin'.
+      destruct (pre_ok_in _ _ _ _ _ _ Hpre Hin') as (_ & Hx). destruct Hx.
+    + cbn. intros Hc. congruence.
+    + intros i d p Hin. pose proof (Hlbl _ _ Hin) as ->. pose proof (Hin_pre _ _ Hin I) as Hin'.
+      destruct (in_pre_toc _ _ _ _ _ _ _ _ Hpre Hin') as (_ & Hi & Hd').
+      exists id, f. auto.
+    + intros i id' a Hin. pose proof (Hlbl _ _ Hin) as ->. pose proof (Hin_pre _ _ Hin I) as Hin'.
+      destruct (in_pre_open _ _ _ _ _ _ _ _ Hpre Hin') as (_ & -> & (bid & Hi) & Hb0 & Hb' & Hu).
+      exists f, bid. repeat split; auto.
+      * intros j g Hj He. exfalso. assert (live_inc (removed m id f) (f_inc f)) as Hli by (exists j, g; auto).
+        apply (Hl _ HI Hg) in Hli. destruct Hli as (_ & Hne). congruence.
+      * intros d q Hin2. pose proof (Hin_pre _ _ Hin2 I) as Hin2'. eapply Hu; eauto.
+  - (* a run of teardowns *)
+    assert (m_ninc m' = m_ninc m) as Hn.
+    { clear HI HI'. induction Hr as [m|m m' a o Ha H IH|m id f m' o Hg H IH]; auto. }
+    assert (forall i x, In (Some i, x) o ->
+              live_inc m i /\ match x with Metric MEvicted | CloseFlow _ => True | _ => False end) as Hin.
+    { intros i x Hx. destruct (rems_in _ _ _ _ Hr Hx) as [(d & E)|(id & f & Hg & [E|E])]; inv E.
+      - split; [exists id, f; auto | exact I].
+      - split; [exists id, f; auto | exact I]. }
+    pose proof (rems_closes _ _ _ Hr HI) as Hcl.
+    constructor.
+    + lia.
+    + intros i x Hx. destruct (Hin _ _ Hx) as ((id & f & Hg & <-) & _).
+      split; [rewrite Hn; apply (inv_inc _ HI _ _ Hg)|]. left. exists id, f. auto.
+    + intros j g Hj. left. exists g. split; [eapply rems_mono; eauto|]. split; [apply same_id_refl|auto].
+    + intros i d p Hx. destruct (Hin _ _ Hx) as (_ & []).
+    + intros i. apply Hcl.
+    + intros i. apply Hcl.
+    + intros i. apply Hcl.
+    + intros i Hx. destruct (Hin _ _ Hx) as (_ & []).
+    + intros Hc. congruence.
+    + intros i d p Hx. destruct (Hin _ _ Hx) as (_ & []).
+    + intros i d p Hx. destruct (Hin _ _ Hx) as (_ & []).
+  - (* admission *)
+    subst m' inp. set (f := admit_flow m src p now). pose proof (inv_wf _ HI) as Hwf.
+    pose proof (sinsert_fresh Hwf) as Hfresh.
+    assert (forall j g, sget (m_flows (admitted m src p now)) j = Some g ->
+              (j = s_next (m_flows m) /\ g = f) \/ (j <> s_next (m_flows m) /\ sget (m_flows m) j = Some g)) as Hget.
+    { intros j g. unfold admitted. cbn. rewrite (sget_sinsert _ _ Hwf).
+      destruct (Nat.eqb j (s_next (m_flows m))) eqn:E.
+      - apply Nat.eqb_eq in E. intros H. inv H. left. auto.
+      - apply Nat.eqb_neq in E. intros H. right. auto. }
+    assert (live_inc (admitted m src p now) (m_ninc m)) as Hlive_new.
+    { exists (s_next (m_flows m)), f. split; [|reflexivity]. unfold admitted. cbn.
+      rewrite (sget_sinsert _ _ Hwf), Nat.eqb_refl. reflexivity. }
+    assert (forall i, live_inc m i -> live_inc (admitted m src p now) i) as Hlive_old.
+    { intros i (j & g & Hj & He). exists j, g. split; [|exact He]. unfold admitted. cbn.
+      rewrite (sget_sinsert _ _ Hwf). destruct (Nat.eqb j (s_next (m_flows m))) eqn:E; [|exact Hj].
+      apply Nat.eqb_eq in E. subst j. congruence. }
+    match goal with |- SF _ _ _ ?oo => set (outs := oo) end.
+    assert (forall i, closes i outs = 0) as Hc0.
+    { intros i. unfold outs. rewrite closes_app, (closes_arms _ _ Ho). reflexivity. }
+    assert (forall i x, In (Some i, x) outs -> i = m_ninc m /\
+              match x with Metric MCreated | SelectBackend _ _ _ => True | _ => False end) as Hin.
+    { intros i x Hx. unfold outs in Hx. cbn in Hx. destruct Hx as [H|[H|Hx]].
+      - inv H. auto.
+      - inv H. auto.
+      - destruct (arms_in _ _ Ho Hx). discriminate. }
+    constructor; auto.
+    + cbn. lia.
+    + intros i x Hx. destruct (Hin _ _ Hx) as (-> & _). cbn. split; [lia|]. right. auto.
+    + intros j g Hj. destruct (Hget _ _ Hj) as [(-> & ->)|(Hne2 & Hj0)].
+      * right. cbn. repeat split; auto. exists p. split; [reflexivity|]. left. reflexivity.
+      * left. exists g. split; [exact Hj0|]. split; [apply same_id_refl|auto].
+    + intros i d q Hx. destruct (Hin _ _ Hx) as (_ & []).
+    + intros i H1 H2. exfalso. apply H2. apply Hlive_old. exact H1.
+    + intros i Hx. destruct (Hin _ _ Hx) as (-> & _). split; [reflexivity|].
+      exists src, p. split; [reflexivity|]. intros j g Hj He.
+      destruct (Hget _ _ Hj) as [(-> & ->)|(Hne' & Hj0)]; [reflexivity|].
+      pose proof (inv_inc _ HI _ _ Hj0). lia.
+    + intros i d q Hx. destruct (Hin _ _ Hx) as (_ & []).
+    + intros i d q Hx. destruct (Hin _ _ Hx) as (_ & []).
+Qed.
+
+(* ------------------------------------------------------------------ *)
+(** Part 6: invariants over whole traces. *)
+
+Definition event : Type := (N * input * list lout)%type.
+Definition ev_in (e : event) : input := snd (fst e).
+Definition ev_out (e : event) : list lout := snd e.
+Definition allouts (tr : list event) : list lout := flat_map ev_out tr.
+
+Lemma allouts_snoc tr e : allouts (tr ++ [e]) = allouts tr ++ ev_out e.
+Proof. unfold allouts. rewrite flat_map_app. cbn. rewrite app_nil_r. reflexivity. Qed.
+
+Lemma in_allouts tr e x : In e tr -> In x (ev_out e) -> In x (allouts tr).
+Proof. intros H1 H2. unfold allouts. apply in_flat_map. eauto. Qed.
+
+Record TI (m : mgr) (tr : list event) : Prop := {
+  ti_fresh : forall i x, In (Some i, x) (allouts tr) -> (i < m_ninc m)%N;
+  ti_live_tob : forall id f, sget (m_flows m) id = Some f ->
+      forall d p, In (Some (f_inc f), SendToBackend d p) (allouts tr) -> f_backend_addr f = Some d;
+  ti_live_open : forall id f, sget (m_flows m) id = Some f -> closes (f_inc f) (allouts tr) = 0;
+  ti_live_creator : forall id f, sget (m_flows m) id = Some f ->
+      exists e p0, In e tr /\ ev_in e = IClient (f_client f) p0 /\ In (Some (f_inc f), Metric MCreated) (ev_out e);
+  ti_sticky : forall i d1 p1 d2 p2,
+      In (Some i, SendToBackend d1 p1) (allouts tr) -> In (Some i, SendToBackend d2 p2) (allouts tr) -> d1 = d2;
+  ti_closed : forall i, (i < m_ninc m)%N -> ~ live_inc m i -> closes i (allouts tr) = 1;
+  ti_creator_unique : forall i e1 e2, In e1 tr -> In e2 tr ->
+      In (Some i, Metric MCreated) (ev_out e1) -> In (Some i, Metric MCreated) (ev_out e2) ->
+      exists src p1 p2, ev_in e1 = IClient src p1 /\ ev_in e2 = IClient src p2;
+  ti_iso : forall e i d p, In e tr -> In (Some i, SendToClient d p) (ev_out e) ->
+      (exists id, ev_in e = IBackend id p) /\
+      exists e0 p0, In e0 tr /\ ev_in e0 = IClient d p0 /\ In (Some i, Metric MCreated) (ev_out e0);
+  ti_live_opened : forall id f, sget (m_flows m) id = Some f ->
+      forall id' a, In (Some (f_inc f), OpenUpstream id' a) (allouts tr) -> f_backend_addr f = Some a;
+  ti_open_tob : forall i id a d p,
+      In (Some i, OpenUpstream id a) (allouts tr) -> In (Some i, SendToBackend d p) (allouts tr) -> d = a;
+  ti_open_res : forall e i id a, In e tr -> In (Some i, OpenUpstream id a) (ev_out e) ->
+      exists bid, ev_in e = IResolved id bid a;
+}.
+
+Lemma TI_nil c mf mrx : TI (mgr_new c mf mrx) [].
+Proof.
+  assert (forall id f, sget (m_flows (mgr_new c mf mrx)) id = Some f -> False) as Hno.
+  { intros id f H. unfold sget in H. cbn in H. destruct id; discriminate. }
+  constructor; cbn; try (intros; contradiction); try (intros; exfalso; eapply Hno; eauto; fail).
+  intros i H. lia.
+Qed.
+
+Lemma closes_fresh i o : (forall j x, In (Some j, x) o -> j <> i) -> closes i o = 0.
+Proof.
+  intros H. apply closes_zero. intros [l x] Hx. destruct l as [j|]; [|reflexivity].
+  destruct x; try reflexivity. cbn. apply N.eqb_neq. eapply H; eauto.
+Qed.
+
+Lemma TI_step m tr m' now inp o :
+  Inv m -> TI m tr -> SF m m' inp o -> TI m' (tr ++ [(now, inp, o)]).
+Proof.
+  intros HI HT HS.
+  assert (forall i x, In (Some i, x) (allouts tr) -> ~ (m_ninc m <= i)%N) as Hfr.
+  { intros i x Hin Hle. pose proof (ti_fresh _ _ HT _ _ Hin). lia. }
+  constructor; try rewrite allouts_snoc; cbn [ev_out snd].
+  - (* fresh *)
+    intros i x Hin. apply in_app_or in Hin. destruct Hin as [Hin|Hin].
+    + pose proof (ti_fresh _ _ HT _ _ Hin). pose proof (sf_ninc _ _ _ _ HS). lia.
+    + apply (sf_lbl _ _ _ _ HS _ _ Hin).
+  - (* live flows: forwarded only to their backend *)
+    intros id f' Hg d p Hin.
+    destruct (sf_flows _ _ _ _ HS _ _ Hg) as [(f & Hg0 & (Hc & Hcfg & Hinc) & Hmono)|(Hinc & Hn & Hb & _)].
+    + apply in_app_or in Hin. destruct Hin as [Hin|Hin].
+      * apply Hmono. rewrite Hinc in Hin. eapply (ti_live_tob _ _ HT); eauto.
+      * destruct (sf_tob _ _ _ _ HS _ _ _ Hin) as (j & g & _ & _ & _ & Hall & _). eapply Hall; eauto.
+    + exfalso. apply in_app_or in Hin. destruct Hin as [Hin|Hin].
+      * apply (Hfr _ _ Hin). lia.
+      * destruct (sf_tob _ _ _ _ HS _ _ _ Hin) as (j & g & Hj & He & _).
+        pose proof (inv_inc _ HI _ _ Hj). lia.
+  - (* live flows: never closed *)
+    intros id f' Hg. rewrite closes_app.
+    rewrite (sf_close0 _ _ _ _ HS (f_inc f')) by (exists id, f'; auto).
+    destruct (sf_flows _ _ _ _ HS _ _ Hg) as [(f & Hg0 & (Hc & Hcfg & Hinc) & Hmono)|(Hinc & Hn & Hb & _)].
+    + rewrite Hinc, (ti_live_open _ _ HT _ _ Hg0). reflexivity.
+    + rewrite closes_fresh; [reflexivity|]. intros j x Hin E. subst j. apply (Hfr _ _ Hin). lia.
+  - (* live flows: created by a datagram from their client *)
+    intros id f' Hg.
+    destruct (sf_flows _ _ _ _ HS _ _ Hg) as [(f & Hg0 & (Hc & Hcfg & Hinc) & Hmono)|(Hinc & Hn & Hb & p0 & Hi & Hcr)].
+    + destruct (ti_live_creator _ _ HT _ _ Hg0) as (e & p0 & He & Hin & Hcr).
+      exists e, p0. rewrite Hc, Hinc. split; [apply in_or_app; left; exact He | auto].
+    + exists (now, inp, o), p0. split; [apply in_or_app; right; left; reflexivity|].
+      split; [exact Hi|]. rewrite Hinc. exact Hcr.
+  - (* sticky *)
+    intros i d1 p1 d2 p2 H1 H2. apply in_app_or in H1. apply in_app_or in H2.
+    destruct H1 as [H1|H1]; destruct H2 as [H2|H2].
+    + eapply (ti_sticky _ _ HT); eauto.
+    + destruct (sf_tob _ _ _ _ HS _ _ _ H2) as (j & g & Hj & He & Hb & _). subst i.
+      pose proof (ti_live_tob _ _ HT _ _ Hj _ _ H1) as Hb1. destruct Hb as [Hb|Hb]; congruence.
+    + destruct (sf_tob _ _ _ _ HS _ _ _ H1) as (j & g & Hj & He & Hb & _). subst i.
+      pose proof (ti_live_tob _ _ HT _ _ Hj _ _ H2) as Hb2. destruct Hb as [Hb|Hb]; congruence.
+    + destruct (sf_tob _ _ _ _ HS _ _ _ H1) as (j & g & _ & _ & _ & _ & Hu). symmetry. eapply Hu; eauto.
+  - (* every dead incarnation was closed exactly once *)
+    intros i Hlt Hnl. rewrite closes_app.
+    destruct (N.lt_ge_cases i (m_ninc m)) as [Hi|Hi].
+    + destruct (live_inc_dec m i) as [Hl|Hl].
+      * destruct Hl as (j & g & Hj & <-).
+        rewrite (ti_live_open _ _ HT _ _ Hj), (sf_close1 _ _ _ _ HS (f_inc g)); auto. exists j, g. auto.
+      * rewrite (ti_closed _ _ HT _ Hi Hl), (sf_close_dead _ _ _ _ HS _ Hl). reflexivity.
+    + exfalso. assert (m_ninc m' <> m_ninc m) as Hne by lia.
+      destruct (sf_newinc _ _ _ _ HS Hne) as (Hn & Hlive). apply Hnl.
+      replace i with (m_ninc m) by lia. exact Hlive.
+  - (* one creator per incarnation *)
+    intros i e1 e2 H1 H2 C1 C2. apply in_app_or in H1. apply in_app_or in H2.
+    assert (forall e, In e tr -> In (Some i, Metric MCreated) (ev_out e) -> (i < m_ninc m)%N) as Hold.
+    { intros e He Hc. eapply (ti_fresh _ _ HT). eapply in_allouts; eauto. }
+    destruct H1 as [H1|[<-|[]]]; destruct H2 as [H2|[<-|[]]]; cbn [ev_in ev_out fst snd] in *.
+    + eapply (ti_creator_unique _ _ HT); eauto.
+    + exfalso. pose proof (Hold _ H1 C1). destruct (sf_created _ _ _ _ HS _ C2) as (-> & _). lia.
+    + exfalso. pose proof (Hold _ H2 C2). destruct (sf_created _ _ _ _ HS _ C1) as (-> & _). lia.
+    + destruct (sf_created _ _ _ _ HS _ C1) as (_ & src & p & -> & _). exists src, p, p. auto.
+  - (* isolation *)
+    intros e i d p He Hin. apply in_app_or in He. destruct He as [He|[<-|[]]].
+    + destruct (ti_iso _ _ HT _ _ _ _ He Hin) as (H1 & e0 & p0 & H0 & H2 & H3).
+      split; [exact H1|]. exists e0, p0. split; [apply in_or_app; left; exact H0 | auto].
+    + cbn [ev_in ev_out fst snd] in *.
+      destruct (sf_toc _ _ _ _ HS _ _ _ Hin) as (id & f & -> & Hg & <- & <-).
+      split; [eauto|]. destruct (ti_live_creator _ _ HT _ _ Hg) as (e0 & p0 & H0 & H2 & H3).
+      exists e0, p0. split; [apply in_or_app; left; exact H0 | auto].
+  - (* live flows: opened towards their backend *)
+    intros id f' Hg id' a Hin.
+    destruct (sf_flows _ _ _ _ HS _ _ Hg) as [(f & Hg0 & (Hc & Hcfg & Hinc) & Hmono)|(Hinc & Hn & Hb & _)].
+    + apply in_app_or in Hin. destruct Hin as [Hin|Hin].
+      * apply Hmono. rewrite Hinc in Hin. eapply (ti_live_opened _ _ HT); eauto.
+      * destruct (sf_open _ _ _ _ HS _ _ _ Hin) as (g & bid & _ & _ & _ & _ & Hall & _). eapply Hall; eauto.
+    + exfalso. apply in_app_or in Hin. destruct Hin as [Hin|Hin].
+      * apply (Hfr _ _ Hin). lia.
+      * destruct (sf_open _ _ _ _ HS _ _ _ Hin) as (g & bid & _ & Hj & He & _).
+        pose proof (inv_inc _ HI _ _ Hj). lia.
+  - (* the destination is the resolved address *)
+    intros i id a d p H1 H2. apply in_app_or in H1. apply in_app_or in H2.
+    destruct H1 as [H1|H1]; destruct H2 as [H2|H2].
+    + eapply (ti_open_tob _ _ HT); eauto.
+    + destruct (sf_tob _ _ _ _ HS _ _ _ H2) as (j & g & Hj & He & Hb & _). subst i.
+      pose proof (ti_live_opened _ _ HT _ _ Hj _ _ H1) as Hb1. destruct Hb as [Hb|Hb]; congruence.
+    + destruct (sf_open _ _ _ _ HS _ _ _ H1) as (g & bid & _ & Hj & He & Hb & _). subst i.
+      pose proof (ti_live_tob _ _ HT _ _ Hj _ _ H2) as Hb2. congruence.
+    + destruct (sf_open _ _ _ _ HS _ _ _ H1) as (g & bid & _ & _ & _ & _ & _ & Hu). eapply Hu; eauto.
+  - (* an upstream is opened only by a resolution, towards the resolved address *)
+    intros e i id a He Hin. apply in_app_or in He. destruct He as [He|[<-|[]]].
+    + eapply (ti_open_res _ _ HT); eauto.
+    + cbn [ev_in ev_out fst snd] in *.
+      destruct (sf_open _ _ _ _ HS _ _ _ Hin) as (g & bid & -> & _). eauto.
+Qed.
+
+Lemma run_TI hash h : forall m tr0,
+  Inv m -> TI m tr0 ->
+  Inv (fst (run hash m h)) /\ TI (fst (run hash m h)) (tr0 ++ snd (run hash m h)).
+Proof.
+  induction h as [|[now i] h IH]; intros m tr0 HI HT; cbn [run].
+  - cbn. rewrite app_nil_r. auto.
+  - pose proof (step_shape hash m now i HI) as Hsh.
+    pose proof (shape_inv _ _ _ _ _ _ HI Hsh) as HI1.
+    pose proof (TI_step m tr0 _ now i _ HI HT (shape_SF _ _ _ _ _ _ HI Hsh)) as HT1.
+    destruct (step hash m now i) as [m1 o]. cbn [fst snd] in *.
+    specialize (IH m1 _ HI1 HT1). destruct (run hash m1 h) as [m2 tr]. cbn [fst snd] in *.
+    rewrite <- app_assoc in IH. exact IH.
+Qed.
+
+Lemma run_TI_init hash c mf mrx h :
+  TI (fst (run hash (mgr_new c mf mrx) h)) (snd (run hash (mgr_new c mf mrx) h)).
+Proof. apply (run_TI hash h (mgr_new c mf mrx) [] (Inv_new _ _ _) (TI_nil _ _ _)). Qed.
+
+Lemma closes_le_one m tr i : Inv m -> TI m tr ->
+  closes i (allouts tr) <= 1 /\
+  (closes i (allouts tr) = 1 <-> (i < m_ninc m)%N /\ ~ live_inc m i).
+Proof.
+  intros HI HT. destruct (N.lt_ge_cases i (m_ninc m)) as [Hi|Hi].
+  - destruct (live_inc_dec m i) as [Hl|Hl].
+    + destruct Hl as (j & g & Hj & <-). rewrite (ti_live_open _ _ HT _ _ Hj).
+      split; [lia|]. split; [discriminate|]. intros (_ & Hn). exfalso. apply Hn. exists j, g. auto.
+    + rewrite (ti_closed _ _ HT _ Hi Hl). split; [lia|]. tauto.
+  - rewrite closes_fresh.
+    + split; [lia|]. split; [discriminate|]. intros (H & _). lia.
+    + intros j x Hin E. subst j. pose proof (ti_fresh _ _ HT _ _ Hin). lia.
+Qed.
+
+(* ------------------------------------------------------------------ *)
+(** Part 7: payload exactness of one step (no duplication, merge, truncation). *)
+
+Section Exact.
+Variable hash : bool -> addr -> N.
+
+Definition is_pp_header (hdr : list N) (d : addr) : Prop :=
+  hdr = [] \/ exists c, hdr = dgram_header c d.
+
+(** every datagram sent to a backend in a step is the (optionally PROXY-prefixed)
+    payload of the client datagram being handled, or the buffered one being
+    flushed by the resolution; and there is at most one per step *)
+Lemma forward_exact m now inp i d q :
+  Inv m -> In (Some i, SendToBackend d q) (snd (step hash m now inp)) ->
+  (exists hdr, is_pp_header hdr d /\
+     ((exists src p, inp = IClient src p /\ q = hdr ++ p) \/
+      (exists id bid p f, inp = IResolved id bid d /\ sget (m_flows m) id = Some f /\
+                          f_inc f = i /\ f_pending f = Some p /\ q = hdr ++ p))) /\
+  (forall i' d' q', In (Some i', SendToBackend d' q') (snd (step hash m now inp)) ->
+                    i' = i /\ d' = d /\ q' = q).
+Proof.
+  intros HI Hin. pose proof (step_shape hash m now inp HI) as Hs.
+  assert (forall id f f' pre rest,
+            sget (m_flows m) id = Some f -> pre_ok inp id f f' pre ->
+            (forall x, In x rest -> match snd x with SendToBackend _ _ => False | _ => True end) ->
+            In (Some i, SendToBackend d q) (pre ++ rest) ->
+            (exists hdr, is_pp_header hdr d /\
+               ((exists src p, inp = IClient src p /\ q = hdr ++ p) \/
+                (exists id bid p f, inp = IResolved id bid d /\ sget (m_flows m) id = Some f /\
+                                    f_inc f = i /\ f_pending f = Some p /\ q = hdr ++ p))) /\
+            (forall i' d' q', In (Some i', SendToBackend d' q') (pre ++ rest) -> i' = i /\ d' = d /\ q' = q)) as Hpre.
+  { intros id f f' pre rest Hg Hp Hrest Hi.
+    assert (forall y, In y (pre ++ rest) -> match snd y with SendToBackend _ _ => In y pre | _ => True end) as Hsplit.
+    { intros y Hy. apply in_app_or in Hy. destruct Hy as [Hy|Hy].
+      - destruct (snd y); auto.
+      - specialize (Hrest _ Hy). destruct (snd y); auto. destruct Hrest. }
+    pose proof (Hsplit _ Hi) as Hi'. cbn in Hi'.
+    destruct Hp as [|src p b hdr Ei Hb Hb' Hh|bid a p hdr Ei Hb Hpe Hb' Hh|bid a Ei Hb Hb'|p Ei Hb' Hb]; cbn in Hi'.
+    - destruct Hi'.
+    - destruct Hi' as [H|[H|[]]]; [discriminate|]. inv H. split.
+      + exists hdr. split; [destruct Hh; [left|right]; eauto|]. left. eauto.
+      + intros i' d' q' Hy. specialize (Hsplit _ Hy). cbn in Hsplit.
+        destruct Hsplit as [H|[H|[]]]; [discriminate|]. inv H. auto.
+    - destruct Hi' as [H|[H|[H|[]]]]; [discriminate|discriminate|]. inv H. split.
+      + exists hdr. split; [destruct Hh; [left|right]; eauto|]. right. exists id, bid, p, f. auto.
+      + intros i' d' q' Hy. specialize (Hsplit _ Hy). cbn in Hsplit.
+        destruct Hsplit as [H|[H|[H|[]]]]; [discriminate|discriminate|]. inv H. auto.
+    - destruct Hi' as [H|[]]. discriminate.
+    - destruct Hi' as [H|[H|[]]]; discriminate. }
+  assert (forall o, arms o -> forall x, In x o -> match snd x with SendToBackend _ _ => False | _ => True end) as Harms.
+  { intros o Ho x Hx. destruct (arms_in _ _ Ho Hx) as (dd & ->). exact I. }
+  destruct Hs as [o Ho|m' E1 E2 E3 E4 H5 H6|id f f' pre o Hg Hs Hp Ht Hpre' Ho Hmono
+                 |id f f' pre o Hg Hs Hpre' Ho|m' o Hr|src p o m' cl Ei Ht Hd Hc Ho Em Ecl Hne Hpne].
+  - rewrite Forall_forall in Ho. specialize (Ho _ Hin). discriminate.
+  - destruct Hin.
+  - eapply Hpre; eauto. intros x Hx. eapply Harms; eauto.
+  - eapply Hpre; eauto. intros x Hx. apply in_app_or in Hx. destruct Hx as [Hx|Hx].
+    + cbn in Hx. destruct Hx as [<-|[<-|[]]]; exact I.
+    + eapply Harms; eauto.
+  - destruct (rems_in _ _ _ _ Hr Hin) as [(dd & H)|(id & f & _ & [H|H])]; discriminate.
+  - cbn in Hin. destruct Hin as [H|[H|Hin]]; try discriminate.
+    destruct (arms_in _ _ Ho Hin). discriminate.
+Qed.
+
+(** newest-wins buffering while awaiting, and nothing is forwarded yet *)
+Lemma buffer_newest_wins m now src p id f :
+  Inv m ->
+  (N.of_nat (length p) <= m_max_rx m)%N -> c_cluster (m_cluster m) <> [] -> p <> [] ->
+  tget (m_table m) (key_of src (c_with_port (m_cluster m))) = Some id ->
+  sget (m_flows m) id = Some f -> f_phase f = Awaiting ->
+  (exists f', sget (m_flows (fst (step hash m now (IClient src p)))) id = Some f' /\
+              f_pending f' = Some p /\ f_phase f' = Awaiting /\ f_inc f' = f_inc f) /\
+  (forall x, In x (snd (step hash m now (IClient src p))) -> exists dd, x = (None, ArmTimer dd)).
+Proof.
+  intros HI Hlen Hcl Hp Ht Hg Hph. cbn [step]. unfold on_client_datagram.
+  assert (N.ltb (m_max_rx m) (N.of_nat (length p)) = false) as -> by (apply N.ltb_ge; exact Hlen).
+  destruct (c_cluster (m_cluster m)) as [|c0 cl]; [congruence|].
+  destruct p as [|p0 p']; [congruence|]. rewrite Ht.
+  unfold forward_on_existing_flow. rewrite Hg, Hph.
+  match goal with |- context [reschedule ?x] => destruct (reschedule_spec x) as (o & Ho & Harm) end.
+  rewrite Ho. cbn [fst snd]. split.
+  - eexists. split; [cbn; rewrite sget_sset, Nat.eqb_refl, Hg; reflexivity|]. cbn. auto.
+  - intros x Hx. eapply arms_in; eauto.
+Qed.
+
+(** the admitted flow buffers exactly the admitting datagram *)
+Lemma admission_buffers m now src p :
+  Inv m ->
+  (N.of_nat (length p) <= m_max_rx m)%N -> c_cluster (m_cluster m) <> [] -> p <> [] ->
+  tget (m_table m) (key_of src (c_with_port (m_cluster m))) = None ->
+  m_draining m = false -> (N.of_nat (slen (m_flows m)) < m_max_flows m)%N ->
+  sget (m_flows (fst (step hash m now (IClient src p)))) (s_next (m_flows m)) = Some (admit_flow m src p now) /\
+  In (Some (m_ninc m), Metric MCreated) (snd (step hash m now (IClient src p))).
+Proof.
+  intros HI Hlen Hcl Hp Ht Hd Hcap. cbn [step]. unfold on_client_datagram.
+  assert (N.ltb (m_max_rx m) (N.of_nat (length p)) = false) as -> by (apply N.ltb_ge; exact Hlen).
+  destruct (c_cluster (m_cluster m)) as [|c0 cl]; [congruence|].
+  destruct p as [|p0 p']; [congruence|]. rewrite Ht, Hd.
+  assert (N.leb (m_max_flows m) (N.of_nat (slen (m_flows m))) = false) as -> by (apply N.leb_gt; exact Hcap).
+  change (set_flow_live (flow_new src (m_cluster m) now (m_ninc m)) _ _ _ (Some (p0 :: p')))
+    with (admit_flow m src (p0 :: p') now).
+  destruct (sinsert (m_flows m) (admit_flow m src (p0 :: p') now)) as [s' id] eqn:Eins.
+  match goal with |- context [reschedule ?x] => destruct (reschedule_spec x) as (o & Ho & Harm) end.
+  rewrite Ho. cbn [fst snd]. split; [|left; reflexivity].
+  cbn. assert (s' = fst (sinsert (m_flows m) (admit_flow m src (p0 :: p') now))) as -> by (rewrite Eins; reflexivity).
+  rewrite (sget_sinsert _ _ (inv_wf _ HI)), Nat.eqb_refl. reflexivity.
+Qed.
+
+End Exact.
